@@ -3,6 +3,7 @@ import AlgoVerif.Proofs.C12AST
 import AlgoVerif.Proofs.C12Term
 import AlgoVerif.Proofs.C10TableEq
 import AlgoVerif.Proofs.C12ASTStack
+import AlgoVerif.Proofs.C12Faults
 /-!
 # C12 — the predictive parser accepts exactly L(G) for LL(1) grammars
 
@@ -172,6 +173,140 @@ theorem C12_decides_language (g : Grammar T N) (hv : validB g = true) (hnd : g.p
     injection h2 with h2
     exact ⟨E, h2⟩
 
+/-! ### a lexer that fails, callbacks that return errors
+
+`parseWithF` is `Parse` with a lexer whose call number `lexFail` answers an error other than `io.EOF`, a token
+callback that returns an error for the token at position `tokFail` and a production callback that returns an error
+at its call number `prodFail` (`none` = never); its result lists the callbacks that returned nil.  The property
+words the parser's answer for lexers and callbacks that do not fail (the theorems above); these theorems say what
+the three `return &parser.ParseError{Cause: err}` branches do, for all grammars, inputs and fault positions. -/
+
+/-- **Nothing fails ⇒ the `Parse` of the theorems above**, and such a run never ends in a failure. -/
+theorem C12_faultfree_is_parse (g : Grammar T N) (an : Analysis T N) (fuel : Nat) (w : List T) :
+    (parseWith g an fuel w = (parseWithF g an none none none fuel w).bind fun r => match r with
+      | .tableError => .ok .tableError
+      | .done E .accept => .ok (.done (.accept E))
+      | .done _ (.reject why) => .ok (.done (.reject why))
+      | .done _ (.fail _) => .panic) ∧
+    ∀ E f, parseWithF g an none none none fuel w ≠ .ok (.done E (.fail f)) := by
+  constructor
+  · unfold parseWith parseWithF
+    dsimp only
+    split
+    · rw [parseRunF_none _ fuel _ w 0 0 []]
+      simp only [reduceCtorEq, if_false]
+      cases parseRunF (tcell (buildTable (firstStr an.first) an.follow g.prods g.nonterms)) none none none fuel
+          [Sym.nonterm g.start] w 0 0 with
+      | ok r =>
+        obtain ⟨E, e⟩ := r
+        cases e <;> simp [Outcome.bind, Outcome.map, toPResult]
+      | panic => rfl
+      | diverge => rfl
+    · rfl
+  · intro E f h
+    unfold parseWithF at h
+    dsimp only at h
+    split at h
+    · simp only [reduceCtorEq, if_false] at h
+      cases hr : parseRunF (tcell (buildTable (firstStr an.first) an.follow g.prods g.nonterms)) none none none fuel
+          [Sym.nonterm g.start] w 0 0 with
+      | ok r =>
+        rw [hr] at h
+        obtain ⟨E', e'⟩ := r
+        simp only [Outcome.map, Outcome.ok.injEq, ParseOutF.done.injEq] at h
+        obtain ⟨rfl, rfl⟩ := h
+        exact parseRunF_none_ne_fail _ fuel _ w 0 0 _ f hr
+      | panic => rw [hr] at h; simp [Outcome.map] at h
+      | diverge => rw [hr] at h; simp [Outcome.map] at h
+    · cases h
+
+/-- **An error of the lexer or of a callback stops `Parse` at that call.**  Whatever fails and wherever: the
+run is the run in which nothing fails, cut at the first call that returns an error (`cutEvents`) — `Parse` returns
+that error, and the callbacks it made before are exactly those of the undisturbed run up to there. -/
+theorem C12_error_stops_parse (g : Grammar T N) (an : Analysis T N) (lexFail tokFail prodFail : Option Nat)
+    (fuel : Nat) (w : List T) (E : List (Event T N)) (e : Ending)
+    (h : parseWithF g an none none none fuel w = .ok (.done E e)) :
+    parseWithF g an lexFail tokFail prodFail fuel w =
+      .ok (if lexFail = some 0 then .done [] (.fail .lexer)
+           else .done (cutEvents lexFail tokFail prodFail 0 E e).1 (cutEvents lexFail tokFail prodFail 0 E e).2) := by
+  unfold parseWithF at h ⊢
+  dsimp only at h ⊢
+  split at h
+  · rename_i hc
+    rw [if_pos hc]
+    simp only [reduceCtorEq, if_false] at h
+    by_cases h0 : lexFail = some 0
+    · simp [h0]
+    · simp only [h0, if_false]
+      cases hr : parseRunF (tcell (buildTable (firstStr an.first) an.follow g.prods g.nonterms)) none none none fuel
+          [Sym.nonterm g.start] w 0 0 with
+      | ok r =>
+        rw [hr] at h
+        obtain ⟨E', e'⟩ := r
+        simp only [Outcome.map, Outcome.ok.injEq, ParseOutF.done.injEq] at h
+        obtain ⟨rfl, rfl⟩ := h
+        rw [parseRunF_cut _ lexFail tokFail prodFail fuel _ w 0 0 _ _ hr]
+        rfl
+      | panic => rw [hr] at h; simp [Outcome.map] at h
+      | diverge => rw [hr] at h; simp [Outcome.map] at h
+  · cases h
+
+/-- **Nothing is emitted after the error, and without an error nothing changes**: the callbacks made under faults
+are a prefix of the callbacks of the undisturbed run; if `Parse` does not end with an injected error, its answer
+and its callbacks are those of the undisturbed run (so `C12_sound` … `C12_decides_language` apply to it). -/
+theorem C12_nothing_emitted_after_error (g : Grammar T N) (an : Analysis T N)
+    (lexFail tokFail prodFail : Option Nat) (fuel : Nat) (w : List T) (E E' : List (Event T N)) (e e' : Ending)
+    (h : parseWithF g an none none none fuel w = .ok (.done E e))
+    (h' : parseWithF g an lexFail tokFail prodFail fuel w = .ok (.done E' e')) :
+    E' <+: E ∧ ((∀ f, e' ≠ .fail f) → E' = E ∧ e' = e) := by
+  rw [C12_error_stops_parse g an lexFail tokFail prodFail fuel w E e h] at h'
+  by_cases h0 : lexFail = some 0
+  · simp only [h0, if_true, Outcome.ok.injEq, ParseOutF.done.injEq] at h'
+    obtain ⟨rfl, rfl⟩ := h'
+    exact ⟨List.nil_prefix, fun hf => absurd rfl (hf .lexer)⟩
+  · simp only [h0, if_false, Outcome.ok.injEq, ParseOutF.done.injEq] at h'
+    obtain ⟨rfl, rfl⟩ := h'
+    refine ⟨cutEvents_prefix _ _ _ E 0 e, fun hf => ?_⟩
+    rw [cutEvents_not_fail _ _ _ E 0 e hf]
+    exact ⟨rfl, rfl⟩
+
+/-- **The token callback's error is returned**: if the undisturbed run hands the token at position `j` to the token
+callback (after the callbacks `E₁`), and that call returns an error, `Parse` returns that error (with the position
+of the token) having made exactly the callbacks `E₁`. -/
+theorem C12_token_callback_error_returned (g : Grammar T N) (an : Analysis T N) (fuel : Nat) (w : List T)
+    (E₁ E₂ : List (Event T N)) (t : T) (j : Nat) (e : Ending)
+    (h : parseWithF g an none none none fuel w = .ok (.done (E₁ ++ .tok t j :: E₂) e))
+    (hfirst : ∀ t' p, Event.tok t' p ∈ E₁ → p ≠ j) :
+    parseWithF g an none (some j) none fuel w = .ok (.done E₁ (.fail (.token j))) := by
+  rw [C12_error_stops_parse g an none (some j) none fuel w _ e h, cutEvents_token j t E₁ E₂ 0 e hfirst]
+  simp
+
+/-- **The production callback's error is returned**: if its call number `k` returns an error, `Parse` returns that
+error having made exactly the callbacks before it. -/
+theorem C12_production_callback_error_returned (g : Grammar T N) (an : Analysis T N) (fuel : Nat) (w : List T)
+    (E₁ E₂ : List (Event T N)) (p : GProd T N) (e : Ending)
+    (h : parseWithF g an none none none fuel w = .ok (.done (E₁ ++ .prod p :: E₂) e)) :
+    parseWithF g an none none (some (eventProds E₁).length) fuel w = .ok (.done E₁ (.fail .prod)) := by
+  rw [C12_error_stops_parse g an none none (some (eventProds E₁).length) fuel w _ e h,
+    cutEvents_prod (eventProds E₁).length p E₁ E₂ 0 e (by omega)]
+  simp
+
+/-- **The lexer's error is returned**: an error at the first `NextToken` is returned before any callback; an error
+at the call that follows the token at position `j` is returned right after that token's callback. -/
+theorem C12_lexer_error_returned (g : Grammar T N) (an : Analysis T N) (fuel : Nat) (w : List T)
+    (E : List (Event T N)) (e : Ending) (h : parseWithF g an none none none fuel w = .ok (.done E e)) :
+    parseWithF g an (some 0) none none fuel w = .ok (.done [] (.fail .lexer)) ∧
+    ∀ (E₁ E₂ : List (Event T N)) (t : T) (j : Nat), E = E₁ ++ .tok t j :: E₂ →
+      (∀ t' p, Event.tok t' p ∈ E₁ → p ≠ j) →
+      parseWithF g an (some (j + 1)) none none fuel w = .ok (.done (E₁ ++ [.tok t j]) (.fail .lexer)) := by
+  constructor
+  · rw [C12_error_stops_parse g an (some 0) none none fuel w E e h]
+    simp
+  · intro E₁ E₂ t j hE hfirst
+    subst hE
+    rw [C12_error_stops_parse g an (some (j + 1)) none none fuel w _ e h, cutEvents_lexer j t E₁ E₂ 0 e hfirst]
+    simp
+
 end
 
 /-! ## non-vacuity: `S → a A b`, `A → ε | a A` (terminals `0 = a`, `1 = b`; non-terminals `0 = S`, `1 = A`) -/
@@ -211,3 +346,18 @@ example : ∃ an, analyse C12d19 IterOrder.canon IterOrder.canon = .ok an ∧
     (∃ E, parseWith C12d19 an 10 [0] = .ok (.done (.accept E))) ∧
     parseWith C12d19 an 10 [0, 0] = .ok (.done (.reject .trailing)) :=
   ⟨_, rfl, ⟨_, rfl⟩, rfl⟩
+
+/-- faults on `a a b` for `S → a A b`, `A → ε | a A`: the undisturbed run makes six callbacks; an error of the token
+callback at position 1, of production callback number 1, of the lexer at its calls 0 and 2 each stop it there -/
+example : ∃ an, analyse C12ex IterOrder.canon IterOrder.canon = .ok an ∧
+    parseWithF C12ex an none none none 50 [0, 0, 1] = .ok (.done
+      [.prod ⟨0, [.term 0, .nonterm 1, .term 1]⟩, .tok 0 0, .prod ⟨1, [.term 0, .nonterm 1]⟩, .tok 0 1, .prod ⟨1, []⟩,
+       .tok 1 2] .accept) ∧
+    parseWithF C12ex an none (some 1) none 50 [0, 0, 1] = .ok (.done
+      [.prod ⟨0, [.term 0, .nonterm 1, .term 1]⟩, .tok 0 0, .prod ⟨1, [.term 0, .nonterm 1]⟩] (.fail (.token 1))) ∧
+    parseWithF C12ex an none none (some 1) 50 [0, 0, 1] = .ok (.done
+      [.prod ⟨0, [.term 0, .nonterm 1, .term 1]⟩, .tok 0 0] (.fail .prod)) ∧
+    parseWithF C12ex an (some 0) none none 50 [0, 0, 1] = .ok (.done [] (.fail .lexer)) ∧
+    parseWithF C12ex an (some 2) none none 50 [0, 0, 1] = .ok (.done
+      [.prod ⟨0, [.term 0, .nonterm 1, .term 1]⟩, .tok 0 0, .prod ⟨1, [.term 0, .nonterm 1]⟩, .tok 0 1] (.fail .lexer)) :=
+  ⟨_, rfl, rfl, rfl, rfl, rfl, rfl⟩
